@@ -121,6 +121,19 @@ def handle (j : Json) : Except String Json := do
     | "current" => pure (Json.bool (mockUnit (← getBool (← field j "is_extern")) path))
     | "pinned" => pure (Json.bool (mockUnit0 (← getStr (← field j "marker")) path))
     | v => throw s!"unknown variant {v}"
+  | "original_path" =>
+    let variant ← getStr (fieldD j "variant" (Json.str "current"))
+    let table ← listOf (fun kv => do
+      let a ← getArr kv
+      if a.size != 2 then throw "table entry must be [key, value]"
+      pure (← getStr a[0]!, ← getStr a[1]!)) (← field j "table")
+    let entry ← getStr (← field j "entry")
+    match variant with
+    | "current" =>
+      let real ← getStr (← field j "real")
+      pure (Json.str (originalPath table (fun _ => real) entry))
+    | "pinned" => pure (Json.str (originalPath0 table entry))
+    | v => throw s!"unknown variant {v}"
   | "bundle_export" =>
     let items ← listOf getItem (← field j "items")
     let kind ← getStr (fieldD j "key_kind" (Json.str "plain"))
